@@ -387,7 +387,10 @@ def c06_case(ctx, seed):
             os.mkfifo(fifo)
             fd = os.open(fifo, os.O_RDWR | os.O_NONBLOCK)
             ntok = rng.randint(0, 4)
-            os.write(fd, b"+" * ntok)
+            # a token is a byte; the protocol asks a client to give back exactly the bytes it took ('+' with GNU make, '|' with
+            # the Rust implementation, anything - with the top bit set, too - with others)
+            tokbytes = bytes(rng.choice(b"+++|+a0\x01\x7f\x80\xa0\xe9\xff") for _ in range(ntok)) if rng.random() < 0.6 else b"+" * ntok
+            os.write(fd, tokbytes)
             env["MAKEFLAGS"] = " -j%d --jobserver-auth=fifo:%s" % (ntok + 1, fifo)
             limit = ntok + 1
             args = ["-k", str(rng.choice((1, 0)))]
@@ -399,18 +402,17 @@ def c06_case(ctx, seed):
                 args += ["-l", rng.choice(("0.01", "0.5"))]
                 rep["load_limited"] = True
         p = t.popen(args, env=env)
-        thief_took = 0
+        thief_took = b""
         if mode == "jobserver" and rng.random() < 0.4 and ntok:
             # a competing client takes a token for a while and gives it back
             time.sleep(0.05)
             try:
-                if os.read(fd, 1):
-                    thief_took = 1
+                thief_took = os.read(fd, 1)
             except OSError:
                 pass
             time.sleep(0.2)
             if thief_took:
-                os.write(fd, b"+")
+                os.write(fd, thief_took)
         if path == "sigint":
             time.sleep(rng.random() * 0.3 + 0.05)
             try:
@@ -462,19 +464,22 @@ def c06_case(ctx, seed):
                 return
         if mode == "jobserver":
             time.sleep(0.05)
-            got = 0
+            gotb = b""
             try:
                 while True:
                     b = os.read(fd, 64)
                     if not b:
                         break
-                    got += len(b)
+                    gotb += b
             except OSError:
                 pass
+            got = len(gotb)
             ctx.count("e2e_fifo_token_checks")
-            if got != ntok:
-                ctx.violation("C06/e2e-fifo-tokens/%s" % path, "%s: the FIFO held %d tokens before and %d after ninja exited (rc %s): %s" %
-                              (what, ntok, got, rc, txt[-200:]), rep)
+            if any(c != 0x2b for c in tokbytes):
+                ctx.count("e2e_fifo_pools_with_other_token_bytes")
+            if got != ntok or sorted(gotb) != sorted(tokbytes):
+                ctx.violation("C06/e2e-fifo-tokens/%s" % path, "%s: the FIFO held %d tokens (%r) before and %d (%r) after ninja exited (rc %s): %s" %
+                              (what, ntok, tokbytes, got, gotb, rc, txt[-200:]), rep)
                 return
         if len(ctx.samples) < 6 and mx >= 2 and mode == "jobserver":
             ctx.sample({"scenario": what, "tokens": ntok, "max_concurrency": mx, "exit": rc})
